@@ -63,7 +63,8 @@ def run(chk):
     _graph.run_family(chk, {"C01"}, tier="quick" if quick else "thorough")
     grad_oracle(chk, 4 if quick else 60)
     for lib in libs:
-        lib.run_family(chk, "C01")
+        if "C01" in getattr(lib, "MODS", {}):
+            lib.run_family(chk, "C01")
     finish_obligations(chk)
     chk.stated_not_proved += ["Graph.tangent_isFDeriv (assembling the per-operator derivative facts into the Fréchet derivative of the composed function: multivariate chain rule over the DAG)"]
     chk.trusted += ["float32 rounding of gradients is outside every theorem (theorems are over a commutative ring / the reals)",
